@@ -62,7 +62,7 @@ def gen(ctx, tier, rng):
             scripts.append(run)                      # all rejected: loop must keep drawing (script exhausted)
         for sc in scripts:
             L.append("rng.uniform %d %s" % (n, ",".join(str(x) for x in sc) if sc else "-"))
-    for h in (1, 2, 3):
+    for h in (1, 2, 3, 4, 8, 13):
         L.append("rng.uniform.h%d 10 7,3" % h)
         L.append("rng.uniform.h%d 1000003 4294967295,5,12345" % h)
     L.append("rng.uniform 0 -")
@@ -92,7 +92,8 @@ def gen(ctx, tier, rng):
                 s2 = bytearray(script)
                 s2[i] ^= 1 << rng.randrange(8)
                 L.append("rng.gen %s %s%s" % (api, hexs(bytes(s2)), tail))
-            for h in (1, 2, 3):      # the same generation after close / stir / both on the installed source (multi-step history)
+            for h in (1, 2, 3, 4, 5, 6, 8, 9, 12, 15):      # the same generation after close / stir / both on the installed source, after ANOTHER source (failing close hook) was installed,
+                                                            # used and closed, and with a scripted source that itself carries stir / close hooks (multi-step histories)
                 L.append("rng.gen.h%d %s %s%s" % (h, api, hexs(script), tail))
             L.append("rng.gen %s %s%s" % (api, hexs(script[:n]), tail))          # exactly enough
             L.append("rng.gen %s %s%s" % (api, hexs(script[:n - 1]), tail))      # one byte short: EXHAUSTED must be reported
